@@ -702,7 +702,27 @@ def rule_must_recency(ctx):
             continue
         p = row['path']
         n += 1
-        ok = any(e[0] == 'call' and e[1] in prog.bodies and (prog.reachable_from([e[1]]) & R.move) for e in p.events)
+        # the call performs the move on EVERY one of its paths -- through the list primitive itself or a callee that always does -- except where
+        # it has established that there is nothing to move (the entry has no node / the node is not in that deque).  A helper that merely CAN
+        # reach the move is not enough: an early return inside it leaves the entry where it was.
+        def _always_moves(fn_, depth_=0):
+            key_ = ('always-moves-ao', fn_)
+            if key_ not in ctx.cache:
+                ctx.cache[key_] = False
+                if depth_ < 4 and fn_ in prog.bodies and (prog.reachable_from([fn_]) & R.move):
+                    try:
+                        hp_ = [q for q in _run(ctx, fn_, inline_depth=0, loop_visits=2, inline_pred=lambda n_, bb_, d_: False) if not q.diverged]
+                    except CheckFailure:
+                        hp_ = []
+
+                    def _excused(q):
+                        return any((isinstance(c_, tuple) and any(isinstance(x, tuple) and x and ((x[0] == 'fld' and 'q_node' in str(x[2])) or
+                                                                                               (x[0] == 'call' and (x[1] in R.member or 'q_node' in str(x[1])))) for x in subterms(c_)))
+                                   for c_, v_ in q.conds)
+                    ctx.cache[key_] = bool(hp_) and all(any(e_[0] == 'call' and (e_[1] in R.move or (e_[1] in prog.bodies and e_[1] != fn_ and _always_moves(e_[1], depth_ + 1)))
+                                                            for e_ in q.events) or _excused(q) for q in hp_)
+            return ctx.cache[key_]
+        ok = any(e[0] == 'call' and (e[1] in R.move or (e[1] in prog.bodies and _always_moves(e[1]))) for e in p.events)
         r.instance(function='unsync::cache::Cache::get', hit=True, moves_to_back=ok)
         if not ok:
             r.violate('unsync::cache::Cache::get', 'hit-without-recency', 'move_to_back', 'a hit path of unsync get does not move the entry to the back of the access-order deque',
